@@ -44,6 +44,11 @@ PROBES = [
     ("fiber.suspended.frames", "fn helper(v) { var inner = [v]; Fiber.yield(1); return inner; } var fb = Fiber.new(|| { var r = helper([9]); return r; }); fb.call(); churn(); print(fb.call());"),
     ("fiber.caller", "var r = Fiber.new(|| { var mine = [1]; var inner = Fiber.new(|| { churn(); return [2]; }); var got = inner.call(); churn(); return [mine, got]; }).call(); print(r);"),
     ("fiber.return_value", "fn f() { try { return [1, [2]]; } finally { churn(); } } print(f());"),
+    ("fiber.finished.captured.local", "fn spawn(n) { var fb = Fiber.new(|| { var count = [n]; return || { count.push(count.len()); return count; }; }); return fb.call(); } "
+                                      "var c1 = spawn(1); var c2 = spawn(2); churn(); print(c1()); churn(); print(c2()); print(c1());"),
+    ("fiber.finished.captured.after.yield", "fn spawn() { var fb = Fiber.new(|| { var held = [\"h\"]; var get = || held; Fiber.yield(get); held = [\"h2\"]; return 0; }); var g = fb.call(); fb.call(); return g; } "
+                                            "var g = spawn(); churn(); print(g()); var pads = [[1], [2], [3]]; churn(); print(g());"),
+    ("fiber.failed.captured.local", "var keep = nil; fn spawn() { var fb = Fiber.new(|| { var v = [\"kept\"]; keep = || v; return v; }); fb.call(); } spawn(); churn(); print(keep()); churn(); print(keep());"),
     ("fiber.in.field", "#[constructor(new)] class H {} var h = H.new(); h.fb = Fiber.new(|| { var x = [4]; Fiber.yield(x); return x; }); print(h.fb.call()); churn(); print(h.fb.call());"),
     ("exception.in.flight", "try { try { throw [1, [2]]; } finally { churn(); } } catch e { print(e); }"),
     ("exception.instance", "try { var z = nil + 1; } catch e { churn(); print(e.context); print(type(e)); }"),
